@@ -3,7 +3,7 @@ from .driver import prop
 
 prop(
     'C20',
-    ['L1', 'L2', 'L3', 'L4'],
+    ['L1', 'L2', 'L3', 'L4', 'L5'],
     explanation=(
         'Static idiom check of hpl.types.DataType: L1 folds the member expressions (seven auto() members, NONE empty, '
         'PRIMITIVE/ITEM/COMPOUND/ANY the stated unions); L2 extracts every syntactic path of cast() and requires: each '
@@ -81,7 +81,7 @@ prop(
 
 prop(
     'C01',
-    ['G1', 'G2', 'G3', 'G4', 'G5', 'G6', 'G7', 'F1', 'D4', 'T1'],
+    ['G1', 'G2', 'G3', 'G4', 'G5', 'G6', 'G7', 'F1', 'D4', 'T1', 'S4'],
     explanation=(
         'Grammar model (both embedded grammars and both .lark assemblies compiled by lark; rule list, terminal list, LALR '
         'states inspected) + flow extraction of all transformer callbacks. G1 the two copies compile to the same rules/'
@@ -103,7 +103,7 @@ prop(
 
 prop(
     'C02',
-    ['D1', 'A6', 'M3', 'M6', 'S3', 'S8'],
+    ['D1', 'A6', 'M3', 'M6', 'S3', 'S8', 'X9'],
     explanation=(
         'D1: HplProperty.__attrs_post_init__ reaches sanity_check on every path; per pattern type (if-chain folded with the '
         'enum predicate table) the ordered _check_* calls and the provenance of their `available` argument equal the '
@@ -118,7 +118,7 @@ prop(
 
 prop(
     'C03',
-    ['A3', 'A3r', 'A4', 'T1', 'T2', 'N2', 'M1', 'M3', 'M6'],
+    ['A3', 'A3r', 'A4', 'T1', 'T2', 'N2', 'N4', 'X9', 'M1', 'M3', 'M6'],
     explanation=(
         'A3: each of the 13 expression-typed child fields is narrowed on construction to exactly its parameter type (cast '
         'converter or forcing validator; operand1 vs parameter1, operand2 vs parameter2), both sides of =/!= are unified and '
@@ -132,7 +132,7 @@ prop(
 
 prop(
     'C04',
-    ['T1n', 'T2n', 'A3n', 'N1', 'A8', 'F1', 'S5', 'M1', 'L2', 'L3', 'G3', 'D1'],
+    ['T1n', 'T2n', 'A3n', 'A7', 'N1', 'A8', 'F1', 'S5', 'M1', 'L2', 'L3', 'G3', 'D1', 'S3'],
     explanation=(
         'Necessary conditions only: no operator/function parameter type or child-field constraint is narrower than the '
         'reference (T1n/T2n/A3n), no overload is missing, compatibility decisions are intersections (L2/L3: cast/can_be), '
@@ -147,7 +147,7 @@ prop(
 
 prop(
     'C05',
-    ['T1w', 'T2w', 'A3p', 'A3u', 'A3r', 'N2', 'N3', 'F1', 'M6'],
+    ['T1w', 'T2w', 'A3p', 'A3', 'A3u', 'A3r', 'N2', 'N3', 'N4', 'X9', 'F1', 'M6'],
     explanation=(
         'Necessary conditions only: no operator/function parameter type is wider than the reference and no overload was '
         'added (T1w/T2w); every expression-typed child slot has a constraint that is not wider than its parameter type '
@@ -160,7 +160,7 @@ prop(
 
 prop(
     'C07',
-    ['X4', 'X3a', 'X1', 'X6', 'A3r', 'S6', 'G6', 'G7', 'G3', 'X5'],
+    ['X4', 'X3a', 'X1', 'X6', 'A3r', 'S6', 'G6', 'G7', 'G3', 'X5', 'N3'],
     explanation=(
         'X4: the lark call sits in a try whose handlers cover UnexpectedToken/UnexpectedCharacters, each handler raises '
         'HplSyntaxError built only from attributes every handled exception class defines (read from lark\'s own source); '
@@ -198,7 +198,7 @@ prop(
 
 prop(
     'C11',
-    ['D2', 'T7', 'M3', 'S8', 'X6'],
+    ['D2', 'T7', 'M3', 'S8', 'X6', 'F1'],
     explanation=(
         'D2: canonical_form evaluated per pattern type x scope type (20 cells, dispatch folded with the enum predicate '
         'tables): split field of the pattern is behaviour (absence/requirement/prevention), trigger (response) or none '
@@ -225,7 +225,7 @@ prop(
 
 prop(
     'C14',
-    ['X1', 'X2', 'X3b', 'X3c', 'S3', 'R2', 'T2', 'X5r'],
+    ['X1', 'X2', 'X3b', 'X3c', 'X10', 'S3', 'R2', 'T2', 'X5r', 'T4'],
     explanation=(
         'X1 definite assignment over all 614 functions; X2 call.arguments[k] vs the smallest overload of the function the '
         'branch dispatches on; X3b explicit raises of rewrite.py are the documented ones; X5r assert census of everything '
@@ -240,7 +240,7 @@ prop(
 
 prop(
     'C17',
-    ['S5', 'F3', 'T5', 'A5', 'A8', 'A9', 'X8', 'M1'],
+    ['S5', 'F3', 'T5', 'A5', 'A8', 'A9', 'X8', 'M1', 'S8'],
     explanation=(
         'S5 the generic walk pushes all children of every non-accessor node and accessors visit object chain and index; F3 '
         'provenance of the alias -> type mapping; T5 (u)intN bounds computed from the bit width; A5 token validators '
@@ -252,7 +252,7 @@ prop(
 
 prop(
     'C18',
-    ['G8', 'F2', 'X6', 'G6'],
+    ['G8', 'F2', 'X6', 'G6', 'G5', 'M4'],
     explanation=(
         'G8 hpl_file is a non-nullable left-recursive list of properties, metadata keys are exactly id/title/description, '
         'LALR tables build for every start. F2 hpl_file keeps all children in order (no converter that reorders or '
@@ -263,7 +263,7 @@ prop(
 
 prop(
     'C06',
-    ['P1', 'P2', 'P3', 'P5', 'P6', 'F4', 'A1', 'A2'],
+    ['P1', 'P2', 'P3', 'P5', 'P6', 'F4', 'A1', 'A2', 'F1', 'D4'],
     explanation=(
         'String-template abstract interpretation of all 20 printers compared with the compiled grammar annotated by F1. '
         'P1 every class prints through a package __str__. P2 on every print path every equality-relevant field the parser '
@@ -280,7 +280,7 @@ prop(
 
 prop(
     'C09',
-    ['R1', 'R4', 'R4b', 'X3b', 'S3'],
+    ['R1', 'R4', 'R4b', 'X3b', 'S3', 'T2'],
     explanation=(
         'Schema extraction + finite-model check. R1: for every syntactic path of _split_and_not, _split_and_quantifier and '
         '_and_presplit_transform the input shape is read from the guards (is_not/is_or/is_implies/quantifier kind, '
@@ -299,7 +299,7 @@ prop(
 
 prop(
     'C10',
-    ['R2', 'S3'],
+    ['R2', 'S3', 'T2'],
     explanation=(
         'R2: for every path of _refactor_ref_expr, _split_ref_operator, _split_ref_negation and _split_ref_quantifier the '
         'returned pair (f1, f2) is converted to formulas as in R1 and f1 & f2 == input is checked in all models with domain '
